@@ -37,14 +37,21 @@ def main():
     rc = 0
     for name in names:
         m = muts[name]
-        path = os.path.join(REPO, m["file"])
-        src = open(path).read()
-        if src.count(m["old"]) != 1:
-            print(f"{name}: pattern occurs {src.count(m['old'])} times in {m['file']} -- skipped")
+        edits = [m] + list(m.get("more", []))
+        ok = True
+        for e in edits:
+            src = open(os.path.join(REPO, e["file"])).read()
+            if src.count(e["old"]) != 1:
+                print(f"{name}: pattern occurs {src.count(e['old'])} times in {e['file']} -- skipped")
+                ok = False
+        if not ok:
             rc = 2
             continue
         try:
-            open(path, "w").write(src.replace(m["old"], m["new"]))
+            for e in edits:
+                path = os.path.join(REPO, e["file"])
+                src = open(path).read()
+                open(path, "w").write(src.replace(e["old"], e["new"]))
             suite = None
             if "--suite" in args:
                 p = run(f"/venv/bin/python {VERIF}/tools/baseline_check.py")
@@ -67,7 +74,7 @@ def main():
             with open(os.path.join(VERIF, "mutants", "results.jsonl"), "a") as fh:
                 fh.write(json.dumps(res) + "\n")
         finally:
-            run(f"git -C {REPO} checkout -- {m['file']}")
+            run(f"git -C {REPO} checkout -- .")
     run(f"rm -f {VERIF}/replays/C*.json")
     return rc
 
